@@ -1314,15 +1314,18 @@ class Machine(object):
                      "single-fault catalogue is enumerated in chunks of %d faults (every truncation offset, every bit and 7 byte values "
                      "at the first/last 64 bytes and at every DER header, extensions, insert/delete/duplicate, three length re-encodings "
                      "of every header, torn writes, garbage, text damage; key files: a rotating third of the chunks in the quick tier); "
-                     "seeded part: 40 sequences of 2-3 faults per case; one evaluation = one chunk; non-trivial = at least one fault "
+                     "seeded part: 40 sequences of 2-3 faults per case, and histories of one decoder object used 2-6 times; ECC key files also "
+                     "get payload faults, DER key files nesting faults; every DER item is compared with an independent encoder; one "
+                     "evaluation = one chunk; non-trivial = at least one fault "
                      "applied; distinct = SHA-256 of the canonical case") % (sum(len(v) for v in getattr(self, "corpus", {}).values()), CHUNK),
             "state_measure": "distinct (decoder, first fault kind, accepted/rejected) tuples",
             "components": {"real": ["Crypto.Util.asn1, Crypto.IO.PEM/PKCS8/_PBES, Crypto.Util.Padding/RFC1751/number, RSA/DSA/ECC import_key and everything below"],
                            "stub": ["storage (the bytes between export and import)", "os.urandom (seeded: salts, IVs, key generation)"]},
             "assumptions": ["passphrase runs use containers written with minimal cost parameters and are cut off by a 2 s watchdog (counted as not judged)",
                             "DerSequence/DerSetOf return non-INTEGER members undecoded: length re-encodings deeper than two levels are not judged there",
-                            "the time bound is enforced as a per-run wall cap only"],
-            "expected_probes": ["roundtrip_checked", "damaged_but_accepted", "reuse_valid_step", "reuse_after_earlier_decode"],
+                            "the time bound is 10 s per decode (inputs of a few KB) where no password-based decryption is involved"],
+            "expected_probes": ["roundtrip_checked", "damaged_but_accepted", "reuse_valid_step", "reuse_after_earlier_decode", "canonical_encoding_compared",
+                                "params_dictionary_reused"],
             "exhaustive": True,
             "not_reached": [],
         }
